@@ -121,7 +121,8 @@ method<Key, R(A...), Policy>::ambiguous_handler(""",
 
     if (Policy::dispatch_data.size() < dispatch_data_size)
         Policy::dispatch_data.resize(dispatch_data_size);""",
-     "dispatch_data never shrinks (stale size after a smaller update)"),
+     "dispatch_data never shrinks (EQUIVALENT: every legal read stays in "
+     "the part the last update wrote; nothing observable changes)"),
     ("M11", "C05", INC + "policies/fast_perfect_hash.hpp",
      "            hash_length = hash_max + 1;",
      "            hash_length = hash_max;",
@@ -312,7 +313,7 @@ template<typename MethodArgList>""",
 
 # M22 and M25 are placeholders kept out of the run
 SKIP = {"M22", "M25"}
-EQUIVALENT = {"M15"}
+EQUIVALENT = {"M10", "M15"}
 
 
 def main():
